@@ -20,6 +20,16 @@ pub struct Violation {
 pub type Verdict = Result<(), Violation>;
 
 pub fn fail<T>(clause: &str, message: String) -> Result<T, Violation> {
+    // messages quote what was written and read; with a key of 70 000 values that is megabytes
+    let message = if message.len() > 6000 {
+        let mut cut = 6000;
+        while !message.is_char_boundary(cut) {
+            cut -= 1;
+        }
+        format!("{}… (+{} bytes)", &message[..cut], message.len() - cut)
+    } else {
+        message
+    };
     Err(Violation {
         clause: clause.to_string(),
         message,
